@@ -1,0 +1,30 @@
+//go:build verif
+
+package util
+
+// Contracts for package util, read by /verif/govc (comment-only file, compiled only with -tags verif).
+// Every line that matters starts with "//@".
+
+//@ pure strictlyAsc(a []int) bool = forall i, j :: 0 <= i && i < j && j < len(a) ==> a[i] < a[j]
+//@ pure inInt32(x int) bool = -2147483648 <= x && x <= 2147483647
+
+//@ func getClosest
+//@   props C12
+//@   requires val1 < target && target < val2
+//@   ensures[C12.closer C01 C05 C07] (result == val1 || result == val2) && abs(result - target) <= abs(val1 - target) && abs(result - target) <= abs(val2 - target)
+//@   modifies nothing
+
+//@ func FindClosest
+//@   props C12
+//@   overflow
+//@   requires len(arr) >= 1 && len(arr) <= 1073741824 && strictlyAsc(arr)
+//@   requires inInt32(target) && (forall k :: 0 <= k && k < len(arr) ==> inInt32(arr[k]))
+//@   ensures[C12.member C01 C05 C07]  exists k :: 0 <= k && k < len(arr) && result == arr[k]
+//@   ensures[C12.nearest C01 C05 C07] forall k :: 0 <= k && k < len(arr) ==> abs(arr[k] - target) >= abs(result - target)
+//@   ensures[C12.exact C01 C05 C07]   (forall k :: 0 <= k && k < len(arr) && arr[k] == target ==> result == target)
+//@   modifies nothing
+//@   loop 1 "for i < j"
+//@     invariant 0 <= i && i < j && j <= len(arr) && n == len(arr)
+//@     invariant arr[i] <= target && (j < len(arr) ==> target < arr[j]) && target < arr[len(arr)-1]
+//@     invariant 0 <= mid && mid < len(arr)
+//@     decreases j - i
